@@ -183,7 +183,7 @@ def run_history(g, payload, ops):
 
 @st.composite
 def histories(draw):
-    g = draw(gg.closed_cfgs(max_n=9, min_n=3))
+    g = draw(gg.closed_cfgs(max_n=12, min_n=3, modes=["motif", "dense", "uniform", "local"]))
     style = draw(st.sampled_from(["gen", "gen", "bytecode", "num"]))
     if style == "gen":
         names = draw(st.lists(st.sampled_from(GEN_BLOCK_NAMES), min_size=len(g), max_size=len(g), unique=True))
@@ -192,6 +192,10 @@ def histories(draw):
         named = gg.restyle(g, style)
     stages = ["closed", "loop", "branch"][: draw(st.integers(1, 3))]
     ops = []
+    if draw(st.integers(0, 2)) == 0:
+        # directed: the whole pipeline with a write-read before the last stage
+        ops = ["closed", "loop", draw(st.sampled_from(["dict", "yaml"])), "branch"]
+        stages = []
     for s in stages:
         for _ in range(draw(st.integers(0, 2))):
             ops.append(draw(st.sampled_from(["dict", "yaml"])))
